@@ -1,26 +1,27 @@
 (** C18 -- done-callbacks fire exactly once for every registered thread and task.
     Property theorems only; each is closed by [exact] of a lemma proved in
-    DoneCb/{Safety,Inv,Partial,Main,TaskProofs}.v.
+    DoneCb/{Safety,Inv,Main,TaskProofs}.v.
 
-    Thread half.  Model: DoneCb/Model.v -- the monitor thread, the thread calling
-    close() and ANY NUMBER of registering threads, each executing the shared accesses
-    of its bytecode (Gen/DoneCbSkeleton.v), interleaved by an adversarial scheduler:
-    every statement quantifies over EVERY label list [ls] (Step who / Arrive t /
-    Die t / CloseCall) and every choice [raises] of callbacks that raise.
-    [called], [registered], [ended], [close_results], [monitor_exits],
-    [first_raised] are functions of the observable history alone (Inv.ghost_of).
-
-    The full-strength statement [thread_statement] is FALSE of the faithful model
-    (C18_thread_statement_false and the four witnesses).  What holds:
-      - for every schedule: at most once, only registered threads, only after the
-        thread ended; close() returns only after the monitor ended, with its exception;
-      - C18_thread_partial under the ADDED hypothesis [no_overlap]: no thread is
-        inside register() (between LOAD_ATTR _active and CALL add) while the monitor is
-        between GET_ITER and the end of its scan, between BINARY_OP - and STORE_ATTR
-        _active, or between the truth test of the empty set and LOAD_ATTR _closed.
+    Thread half.  Model: DoneCb/Model.v (thread.py WITH the lock) -- the monitor
+    thread, the thread calling close() and ANY NUMBER of registering threads, each
+    executing the shared accesses of its bytecode (Gen/DoneCbSkeleton.v, regenerated
+    from /repo on every run), interleaved by an adversarial scheduler: every statement
+    quantifies over EVERY label list [ls] (Step who / Arrive t / Die t / CloseCall) and
+    every choice [raises] of callbacks that raise.  A thread at a LockAcquire is disabled
+    while the lock is held; the scheduler may pick any thread at every step.
+    No usage contract is built into the labels (a thread may start registering at any
+    time, close() may be called at any time): the contract of close() appears in the
+    statements as [registered_before_close] = the threads whose register() had RETURNED
+    when close() was called.  Structural assumptions of the model (listed in
+    harness/props/c18.py ASSUMPTIONS): a thread registers itself, once, and ends only
+    after its register() returned; close() is called at most once and not from a
+    registered thread.
+    [called], [registered], [registered_before_close], [ended], [close_results],
+    [monitor_exits], [first_raised] are functions of the observable history alone
+    (Inv.ghost_of).
     Task half.  Model: DoneCb/Task.v (sequential); every operation sequence = every
     completion order; hypothesis [twf]: no task is registered again after it ended. *)
-From NL Require Import DoneCb.Model DoneCb.Safety DoneCb.Inv DoneCb.Partial DoneCb.Main
+From NL Require Import DoneCb.Model DoneCb.Safety DoneCb.Inv DoneCb.Main
                        DoneCb.Task DoneCb.TaskProofs.
 
 (** tie: the model's programs are exactly the shared accesses of the regenerated skeleton *)
@@ -31,72 +32,49 @@ Proof. exact close_skeleton_ok. Qed.
 Theorem C18_skeleton_monitor : filter shared monitor_skeleton = monitor_prog.
 Proof. exact monitor_skeleton_ok. Qed.
 
-(** every schedule: never twice, never for an unregistered thread, never before the thread ended *)
+(** at any time, for every schedule: never twice, never for an unregistered thread, never
+    before the thread ended *)
 Theorem C18_thread_at_most_once : forall raises ls,
   NoDup (called raises ls) /\
   forall t, In t (called raises ls) -> In t (ended raises ls) /\ In t (registered raises ls).
 Proof. exact thread_at_most_once. Qed.
 
-(** every schedule: close() returns only after the monitor thread ended, and reports how it ended *)
+(** once close() has returned, every thread registered before close() was called has ended and
+    its callback was invoked exactly once *)
+Theorem C18_thread_exactly_once : forall raises ls e,
+  In e (close_results raises ls) ->
+  forall t, In t (registered_before_close raises ls) ->
+    count_occ Nat.eq_dec (called raises ls) t = 1 /\ In t (ended raises ls).
+Proof. exact thread_exactly_once. Qed.
+
+(** close() returns only after all of them have ended and been called back ... *)
+Theorem C18_close_waits : forall raises ls e,
+  In e (close_results raises ls) ->
+  forall t, In t (registered_before_close raises ls) -> In t (called raises ls) /\ In t (ended raises ls).
+Proof. exact close_waits. Qed.
+
+(** ... and only after the monitor thread ended, reporting how it ended *)
 Theorem C18_close_after_monitor : forall raises ls e,
   In e (close_results raises ls) -> In e (monitor_exits raises ls).
 Proof. exact close_after_monitor. Qed.
 
-Theorem C18_monitor_exit_kinds : forall raises ls e,
-  In e (monitor_exits raises ls) -> e = Some ExSetChanged \/ e = first_raised raises ls.
-Proof. exact monitor_exit_kinds. Qed.
+(** close() re-raises exactly the first callback exception (returns normally if none raised) *)
+Theorem C18_exception_reraised : forall raises ls e,
+  In e (close_results raises ls) -> e = first_raised raises ls.
+Proof. exact exception_reraised. Qed.
 
-(** the full statement fails: lost update *)
-Theorem C18_refuted_lost_update :
-  exists ls, In None (close_results nobody ls) /\ In 2 (registered nobody ls) /\ In 2 (ended nobody ls)
-             /\ count_occ Nat.eq_dec (called nobody ls) 2 = 0
-             /\ obj (heap (run nobody ls)) (active (run nobody ls)) = [].
-Proof. exact refuted_lost_update. Qed.
+(** the monitor thread never dies of "Set changed size during iteration": it ends only with the
+    first callback exception or normally -- so no callback exception can be lost that way *)
+Theorem C18_no_iteration_error : forall raises ls e,
+  In e (monitor_exits raises ls) -> e = first_raised raises ls /\ e <> Some ExSetChanged.
+Proof. exact no_iteration_error. Qed.
 
-(** ... "Set changed size during iteration" kills the monitor thread *)
-Theorem C18_refuted_iteration :
-  exists ls, close_results nobody ls = [Some ExSetChanged] /\ In 1 (registered nobody ls) /\ In 1 (ended nobody ls)
-             /\ count_occ Nat.eq_dec (called nobody ls) 1 = 0 /\ first_raised nobody ls = None.
-Proof. exact refuted_iteration. Qed.
-
-(** ... the monitor leaves between `if self._active` and `if self._closed` *)
-Theorem C18_refuted_exit_race :
-  exists ls, In None (close_results nobody ls) /\ In 1 (registered nobody ls)
-             /\ count_occ Nat.eq_dec (called nobody ls) 1 = 0
-             /\ obj (heap (run nobody ls)) (active (run nobody ls)) = [1].
-Proof. exact refuted_exit_race. Qed.
-
-(** ... a callback's exception is lost (close() raises the iteration error instead) *)
-Theorem C18_refuted_exception_lost :
-  exists ls, close_results only1 ls = [Some ExSetChanged] /\ first_raised only1 ls = Some (ExCb 1).
-Proof. exact refuted_exception_lost. Qed.
-
-Theorem C18_thread_statement_false : ~ thread_statement.
-Proof. exact thread_statement_false. Qed.
-
-(** ADDED hypothesis: no registration overlaps a scan / rebuild / exit check.
-    Then: exactly once, close() waits, the first callback exception is re-raised. *)
-Theorem C18_thread_partial : forall raises ls e,
-  no_overlap raises ls = true -> In e (close_results raises ls) ->
-  (forall t, In t (registered raises ls) ->
-     count_occ Nat.eq_dec (called raises ls) t = 1 /\ In t (ended raises ls))
-  /\ e = first_raised raises ls.
-Proof. exact thread_partial. Qed.
-
-(** close() returns only after all registered threads have ended and been called back (same hypothesis) *)
-Theorem C18_close_waits_partial : forall raises ls e,
-  no_overlap raises ls = true -> In e (close_results raises ls) ->
-  forall t, In t (registered raises ls) -> In t (called raises ls) /\ In t (ended raises ls).
-Proof. exact close_waits_partial. Qed.
-
-(** close() re-raises exactly the first callback exception, or returns normally if none (same hypothesis) *)
-Theorem C18_exception_reraised_partial : forall raises ls e,
-  no_overlap raises ls = true -> In e (close_results raises ls) -> e = first_raised raises ls.
-Proof. exact exception_reraised_partial. Qed.
-
-Theorem C18_no_iteration_error_partial : forall raises ls e,
-  no_overlap raises ls = true -> In e (monitor_exits raises ls) -> e = first_raised raises ls.
-Proof. exact no_iteration_error_partial. Qed.
+(** the lock: a thread inside register()'s `with` block excludes the monitor's scan, rebuild and
+    exit check, and every other registering thread *)
+Theorem C18_lock_excludes : forall raises ls t,
+  let s := run raises ls in
+  reg_locked (regs s t) -> ~ mon_locked (m_pc s) /\ forall t', reg_locked (regs s t') -> t' = t.
+Proof. exact lock_excludes. Qed.
 
 (** task half: exactly once for every task registered and ended, for every completion order *)
 Theorem C18_task_exactly_once : forall raises os, twf os ->
@@ -109,14 +87,32 @@ Proof. exact task_exactly_once. Qed.
 Theorem C18_task_close_waits : forall raises os, twf os -> steps_ok [] [] [] os (touts raises os).
 Proof. exact task_steps_ok. Qed.
 
-(** non-vacuity: a schedule with two threads registering while the monitor runs that satisfies
-    no_overlap (and the three witnesses do not) *)
+(** non-vacuity: the three schedules on which the unrepaired code lost a callback (as executed on
+    the repaired class, drain included): close() returns, every thread is called back *)
+Example C18_example_former_witnesses :
+  (close_results nobody w_iteration = [None] /\ registered_before_close nobody w_iteration = [1]
+   /\ called nobody w_iteration = [1] /\ monitor_exits nobody w_iteration = [None])
+  /\ (close_results nobody w_lost_update = [None] /\ registered_before_close nobody w_lost_update = [2; 1]
+      /\ called nobody w_lost_update = [2; 1])
+  /\ (close_results nobody w_exit_race = [None] /\ registered nobody w_exit_race = [1]
+      /\ called nobody w_exit_race = [1]).
+Proof. exact example_former_witnesses. Qed.
+
+(** the same races aimed at the repaired code: the registering thread is blocked (2-3 disabled
+    steps) while the monitor is inside the scan / between `-` and the store / in the exit check *)
 Example C18_example_nonvacuous :
-  no_overlap only1 ex_ok = true /\ registered only1 ex_ok = [2; 1] /\ called only1 ex_ok = [2; 1]
-  /\ close_results only1 ex_ok = [Some (ExCb 1)] /\ first_raised only1 ex_ok = Some (ExCb 1)
-  /\ no_overlap nobody w_lost_update = false /\ no_overlap nobody w_iteration = false
-  /\ no_overlap nobody w_exit_race = false.
-Proof. exact example_nonvacuous. Qed.
+  (close_results nobody w_iteration_locked = [None] /\ called nobody w_iteration_locked = [1]
+   /\ blocked_steps w_iteration_locked = 3)
+  /\ (close_results nobody w_lost_update_locked = [None] /\ called nobody w_lost_update_locked = [2; 1]
+      /\ blocked_steps w_lost_update_locked = 3)
+  /\ (close_results nobody w_exit_race_locked = [None] /\ called nobody w_exit_race_locked = [1]
+      /\ registered_before_close nobody w_exit_race_locked = [1] /\ blocked_steps w_exit_race_locked = 2).
+Proof. exact example_locked. Qed.
+
+Example C18_example_raises :
+  close_results only1 w_lost_update = [Some (ExCb 1)] /\ first_raised only1 w_lost_update = Some (ExCb 1)
+  /\ called only1 w_lost_update = [2; 1] /\ ended only1 w_lost_update = [2; 1].
+Proof. exact example_raises. Qed.
 
 Example C18_example_task_nonvacuous :
   twf [TReg 1; TReg 2; TReg 1; TComplete 2; TClose; TComplete 3; TComplete 1] /\
@@ -128,18 +124,15 @@ Print Assumptions C18_skeleton_register.
 Print Assumptions C18_skeleton_close.
 Print Assumptions C18_skeleton_monitor.
 Print Assumptions C18_thread_at_most_once.
+Print Assumptions C18_thread_exactly_once.
+Print Assumptions C18_close_waits.
 Print Assumptions C18_close_after_monitor.
-Print Assumptions C18_monitor_exit_kinds.
-Print Assumptions C18_refuted_lost_update.
-Print Assumptions C18_refuted_iteration.
-Print Assumptions C18_refuted_exit_race.
-Print Assumptions C18_refuted_exception_lost.
-Print Assumptions C18_thread_statement_false.
-Print Assumptions C18_thread_partial.
-Print Assumptions C18_close_waits_partial.
-Print Assumptions C18_exception_reraised_partial.
-Print Assumptions C18_no_iteration_error_partial.
+Print Assumptions C18_exception_reraised.
+Print Assumptions C18_no_iteration_error.
+Print Assumptions C18_lock_excludes.
 Print Assumptions C18_task_exactly_once.
 Print Assumptions C18_task_close_waits.
+Print Assumptions C18_example_former_witnesses.
 Print Assumptions C18_example_nonvacuous.
+Print Assumptions C18_example_raises.
 Print Assumptions C18_example_task_nonvacuous.
